@@ -17,109 +17,110 @@ Open Scope Z_scope.
 
 (** ** the resumption is the model *)
 Section Equiv.
-  Variable e : env.
+  Variables (e : env) (clk : nat -> Z).
 
-  Lemma staples_prog_ok now ks kont : forall s,
-    run e (staples_prog now ks kont) s = run e kont (staples_loop e now ks s).
+  Lemma staples_prog_ok ks kont : forall s,
+    run e clk (staples_prog ks kont) s = run e clk kont (staples_loop e clk ks s).
   Proof.
     induction ks as [|a r IH]; intros s; cbn [staples_prog staples_loop]; [reflexivity|].
     cbn [run exec]. destruct (cancelled e s); [reflexivity|].
     cbn [run exec]. destruct (do_load e a s) as [res s1]. destruct res as [v c| |]; try apply IH.
-    destruct (stale_staple now c); [|apply IH].
+    cbn [run exec]. destruct (stale_staple (rd clk s1) c); [|apply IH].
     cbn [run exec]. destruct (do_delete e a s1) as [b s2]. apply IH.
   Qed.
-  Lemma old_staples_prog_ok now kont s :
-    run e (old_staples_prog now kont) s = run e kont (delete_old_staples e now s).
+  Lemma old_staples_prog_ok kont s :
+    run e clk (old_staples_prog kont) s = run e clk kont (delete_old_staples e clk s).
   Proof.
     unfold old_staples_prog, delete_old_staples. cbn [run exec].
     destruct (do_list e prefix_ocsp s) as [res s1]. destruct res as [ks|]; [apply staples_prog_ok | reflexivity].
   Qed.
   Lemma related_prog_ok base sufs kont : forall s,
-    run e (related_prog base sufs kont) s = run e kont (delete_related e base sufs s).
+    run e clk (related_prog base sufs kont) s = run e clk kont (delete_related e base sufs s).
   Proof.
     induction sufs as [|x r IH]; intros s; cbn [related_prog delete_related]; [reflexivity|].
     cbn [run exec]. destruct (do_delete e (base ++ x) s) as [b s1]. apply IH.
   Qed.
-  Lemma assets_prog_ok now gr assets kont : forall s,
-    run e (assets_prog now gr assets kont) s =
-    run e (kont (fst (assets_loop e now gr assets s))) (snd (assets_loop e now gr assets s)).
+  Lemma assets_prog_ok gr assets kont : forall s,
+    run e clk (assets_prog gr assets kont) s =
+    run e clk (kont (fst (assets_loop e clk gr assets s))) (snd (assets_loop e clk gr assets s)).
   Proof.
     induction assets as [|a r IH]; intros s; cbn [assets_prog assets_loop]; [reflexivity|].
     destruct (negb (seqb (path_ext a) clean_ext_crt)); [apply IH|].
     cbn [run exec]. destruct (do_load e a s) as [res s1]. destruct res as [v c| |]; try reflexivity.
     destruct (as_cert c); [|reflexivity].
-    destruct (expired_cert now gr c); [|apply IH].
+    cbn [run exec]. destruct (expired_cert (rd clk s1) gr c); [|apply IH].
     cbn [run exec]. destruct (do_delete e a s1) as [b s2]. rewrite related_prog_ok. apply IH.
   Qed.
-  Lemma sites_prog_ok now gr sites kont : forall s,
-    run e (sites_prog now gr sites kont) s =
-    run e (kont (fst (sites_loop e now gr sites s))) (snd (sites_loop e now gr sites s)).
+  Lemma sites_prog_ok gr sites kont : forall s,
+    run e clk (sites_prog gr sites kont) s =
+    run e clk (kont (fst (sites_loop e clk gr sites s))) (snd (sites_loop e clk gr sites s)).
   Proof.
     induction sites as [|sk r IH]; intros s; cbn [sites_prog sites_loop]; [reflexivity|].
     cbn [run exec]. destruct (cancelled e s); [reflexivity|].
     cbn [run exec]. destruct (do_list e sk s) as [res s1]. destruct res as [assets|]; [|apply IH].
-    rewrite assets_prog_ok. destruct (assets_loop e now gr assets s1) as [ab s2]. cbn [fst snd].
+    rewrite assets_prog_ok. destruct (assets_loop e clk gr assets s1) as [ab s2]. cbn [fst snd].
     destruct ab; [reflexivity|].
     cbn [run exec]. destruct (do_list e sk s2) as [res2 s3]. destruct res2 as [[|x xs]|]; try apply IH.
     cbn [run exec]. destruct (do_stat e sk s3) as [sr s4]. destruct sr; try apply IH.
     cbn [run exec]. destruct (do_delete e sk s4) as [ok s5]. destruct ok; [apply IH | reflexivity].
   Qed.
-  Lemma issuers_prog_ok now gr iss kont : forall s,
-    run e (issuers_prog now gr iss kont) s =
-    run e (kont (fst (issuers_loop e now gr iss s))) (snd (issuers_loop e now gr iss s)).
+  Lemma issuers_prog_ok gr iss kont : forall s,
+    run e clk (issuers_prog gr iss kont) s =
+    run e clk (kont (fst (issuers_loop e clk gr iss s))) (snd (issuers_loop e clk gr iss s)).
   Proof.
     induction iss as [|ik r IH]; intros s; cbn [issuers_prog issuers_loop]; [reflexivity|].
     cbn [run exec]. destruct (do_list e ik s) as [res s1]. destruct res as [sites|]; [|apply IH].
-    rewrite sites_prog_ok. destruct (sites_loop e now gr sites s1) as [ab s2]. cbn [fst snd].
+    rewrite sites_prog_ok. destruct (sites_loop e clk gr sites s1) as [ab s2]. cbn [fst snd].
     destruct ab; [reflexivity | apply IH].
   Qed.
-  Lemma expired_certs_prog_ok now gr kont s :
-    run e (expired_certs_prog now gr kont) s = run e kont (snd (delete_expired_certs e now gr s)).
+  Lemma expired_certs_prog_ok gr kont s :
+    run e clk (expired_certs_prog gr kont) s = run e clk kont (snd (delete_expired_certs e clk gr s)).
   Proof.
     unfold expired_certs_prog, delete_expired_certs. cbn [run exec].
     destruct (do_list e prefix_certs s) as [res s1]. destruct res as [iss|]; [|reflexivity].
     rewrite issuers_prog_ok. reflexivity.
   Qed.
 
-  Lemma work_prog_ok o now s :
-    run e (work_prog o now) s =
-    (let s2 := if do_ocsp o then delete_old_staples e now s else s in
-     let s3 := if do_certs o then snd (delete_expired_certs e now (grace o) s2) else s2 in
-     let '(ok, s4) := do_store e clean_storage_key (written now o) s3 in
+  Lemma work_prog_ok o s :
+    run e clk (work_prog o) s =
+    (let s2 := if do_ocsp o then delete_old_staples e clk s else s in
+     let s3 := if do_certs o then snd (delete_expired_certs e clk (grace o) s2) else s2 in
+     let '(ok, s4) := do_store e clean_storage_key (written (rd clk s3) o) s3 in
      (if ok then RNil else RErrStore, s4)).
   Proof.
     unfold work_prog. cbn zeta.
-    assert (P3 : forall s3, run e (Do (AStore clean_storage_key (written now o))
-                   (fun b => match b with XBool true => Done RNil | _ => Done RErrStore end)) s3 =
-                 (let '(ok, s4) := do_store e clean_storage_key (written now o) s3 in
+    assert (P3 : forall s3, run e clk (record_prog o) s3 =
+                 (let '(ok, s4) := do_store e clean_storage_key (written (rd clk s3) o) s3 in
                   (if ok then RNil else RErrStore, s4))).
-    { intros s3. cbn [run exec]. destruct (do_store e clean_storage_key (written now o) s3) as [ok s4].
+    { intros s3. unfold record_prog. cbn [run exec].
+      destruct (do_store e clean_storage_key (written (rd clk s3) o) s3) as [ok s4].
       destruct ok; reflexivity. }
     destruct (do_ocsp o); [rewrite old_staples_prog_ok|];
       (destruct (do_certs o); [rewrite expired_certs_prog_ok|]); apply P3.
   Qed.
 
-  Theorem run_clean_locked_prog o now s :
-    run e (clean_locked_prog o now) s = clean_locked e o now s.
+  Theorem run_clean_locked_prog o s :
+    run e clk (clean_locked_prog o) s = clean_locked e o clk s.
   Proof.
     unfold clean_locked_prog, clean_locked, interval_check.
     destruct (0 <? interval o); [|apply work_prog_ok].
     cbn [run exec]. destruct (do_load e clean_storage_key s) as [res s1].
     destruct res as [v c| |]; try reflexivity; [|apply work_prog_ok].
     destruct (as_clean c) as [[ts i]|]; [|reflexivity].
-    destruct (cmp_holds clean_interval_cmp (now - ts) (interval o)); [reflexivity | apply work_prog_ok].
+    cbn [run exec].
+    destruct (cmp_holds clean_interval_cmp (rd clk s1 - ts) (interval o)); [reflexivity | apply work_prog_ok].
   Qed.
 End Equiv.
 
 (** * Threads and schedules *)
 Inductive tphase := Fresh | Locked (p : prog) | Finished (r : result).
-Record thr := Thr { th_env : env; th_opts : opts; th_now : Z; th_ph : tphase; th_lg : list event }.
+Record thr := Thr { th_env : env; th_opts : opts; th_clk : nat -> Z; th_ph : tphase; th_lg : list event }.
 Record cstate := CS { cs_store : store; cs_holder : option nat; cs_thr : nat -> option thr }.
 
 Definition set_thr (f : nat -> option thr) (t : nat) (x : thr) : nat -> option thr :=
   fun t' => if Nat.eqb t' t then Some x else f t'.
 Definition with_ph (th : thr) (ph : tphase) (lg' : list event) : thr :=
-  Thr (th_env th) (th_opts th) (th_now th) ph lg'.
+  Thr (th_env th) (th_opts th) (th_clk th) ph lg'.
 
 (** one step of thread t (the state is unchanged if t cannot move: unknown, finished, or
     waiting for the lock) *)
@@ -140,11 +141,11 @@ Definition cstep (c : cstate) (t : nat) : cstate :=
             | None =>
                 CS (cs_store c) (Some t)
                    (set_thr (cs_thr c) t
-                      (with_ph th (Locked (clean_locked_prog (th_opts th) (th_now th)))
+                      (with_ph th (Locked (clean_locked_prog (th_opts th)))
                                (lg (snd (do_lock e (St (cs_store c) (th_lg th)))))))
             end
       | Locked (Do a k) =>
-          let '(x, s1) := exec e a (St (cs_store c) (th_lg th)) in
+          let '(x, s1) := exec e (th_clk th) a (St (cs_store c) (th_lg th)) in
           CS (sto s1) (cs_holder c) (set_thr (cs_thr c) t (with_ph th (Locked (k x)) (lg s1)))
       | Locked (Done r) =>
           CS (cs_store c) None
@@ -156,7 +157,7 @@ Definition cstep (c : cstate) (t : nat) : cstate :=
 
 Definition csteps (c : cstate) (sched : list nat) : cstate := fold_left cstep sched c.
 
-Definition run_of (th : thr) : Model.run := Run (th_env th) (th_opts th) (th_now th).
+Definition run_of (th : thr) : Model.run := Run (th_env th) (th_opts th) (th_clk th).
 
 (** ** the invariant *)
 Section Inv.
@@ -170,8 +171,8 @@ Section Inv.
     ci_locked : forall t th p, cs_thr c t = Some th -> th_ph th = Locked p ->
       cs_holder c = Some t /\
       faulty (th_env th) (St (clean_seq done s0) []) = false /\
-      run (th_env th) p (St (cs_store c) (th_lg th)) =
-        clean_locked (th_env th) (th_opts th) (th_now th)
+      run (th_env th) (th_clk th) p (St (cs_store c) (th_lg th)) =
+        clean_locked (th_env th) (th_opts th) (th_clk th)
           (snd (do_lock (th_env th) (St (clean_seq done s0) [])));
     ci_free : cs_holder c = None -> cs_store c = clean_seq done s0;
     ci_holder : forall t, cs_holder c = Some t ->
@@ -225,7 +226,7 @@ Section Inv.
           -- rewrite set_thr_other in H by exact Ne. exact (ci_fresh _ _ I t' th' H Hf).
         * intros t' th' p' H Hl. destruct (Nat.eq_dec t' t) as [->|Ne].
           -- rewrite set_thr_same in H. injection H; intros <-. cbn in Hl. injection Hl; intros <-.
-             cbn [th_env th_opts th_now th_lg with_ph]. split; [reflexivity|].
+             cbn [th_env th_opts th_clk th_lg with_ph]. split; [reflexivity|].
              rewrite <- Hs. split; [exact F|].
              rewrite run_clean_locked_prog. f_equal.
              unfold do_lock. rewrite F. reflexivity.
@@ -250,7 +251,7 @@ Section Inv.
         * intros t' th' p' H Hl. destruct (Nat.eq_dec t' t) as [->|Ne].
           -- rewrite set_thr_same in H. injection H; intros <-. discriminate.
           -- rewrite set_thr_other in H by exact Ne. exfalso. exact (Others t' th' p' Ne H Hl).
-        * intros _. rewrite clean_seq_app. cbn [clean_seq run_of r_env r_opts r_now].
+        * intros _. rewrite clean_seq_app. cbn [clean_seq run_of r_env r_opts r_clk].
           unfold clean. destruct (do_lock (th_env th) (St (clean_seq done s0) [])) as [ok s1] eqn:L.
           assert (ok = true) by (unfold do_lock in L; rewrite Fl in L; injection L; intros _ <-; reflexivity).
           subst ok. cbn [snd] in Hrun. cbn [run] in Hrun. rewrite <- Hrun. reflexivity.
@@ -258,7 +259,7 @@ Section Inv.
         * apply Forall_app. split; [exact (ci_done _ _ I)|]. constructor; [|constructor].
           destruct (ci_params _ _ I t th Ht) as [th0 [H0 E0]]. exists t, th0. split; assumption.
       + (* one call of the body *)
-        destruct (exec (th_env th) a (St (cs_store c) (th_lg th))) as [x s1] eqn:Ex.
+        destruct (exec (th_env th) (th_clk th) a (St (cs_store c) (th_lg th))) as [x s1] eqn:Ex.
         exists done. constructor; cbn [cs_thr cs_holder cs_store].
         * intros t' th' H. destruct (Nat.eq_dec t' t) as [->|Ne].
           -- rewrite set_thr_same in H. injection H; intros <-. exact (ci_params _ _ I t th Ht).
@@ -268,7 +269,7 @@ Section Inv.
           -- rewrite set_thr_other in H by exact Ne. exact (ci_fresh _ _ I t' th' H Hf).
         * intros t' th' p' H Hl. destruct (Nat.eq_dec t' t) as [->|Ne].
           -- rewrite set_thr_same in H. injection H; intros <-. cbn in Hl. injection Hl; intros <-.
-             cbn [th_env th_opts th_now th_lg with_ph]. split; [exact Hh|]. split; [exact Fl|].
+             cbn [th_env th_opts th_clk th_lg with_ph]. split; [exact Hh|]. split; [exact Fl|].
              rewrite <- Hrun. cbn [run]. rewrite Ex. destruct s1; reflexivity.
           -- rewrite set_thr_other in H by exact Ne. exfalso. exact (Others t' th' p' Ne H Hl).
         * intros Hn. congruence.
@@ -337,12 +338,15 @@ Section Inv.
     exists t', cstep c t' <> c.
   Proof.
     intros H0 c t th Ht Hnf. destruct (csteps_inv sched _ _ (cinv_init H0)) as [done I]. fold c in I.
+    assert (Sub : forall (q : prog) (a' : act) (k' : resp -> prog) (x' : resp), q = Do a' k' -> k' x' <> q).
+    { induction q as [r'|a0 k0 IHq]; intros a' k' x' Ep; [discriminate|].
+      injection Ep; intros <- <-. intros Ek'. exact (IHq x' a0 k0 x' Ek' eq_refl). }
     assert (Move : forall t1 th1 p1, cs_thr c t1 = Some th1 -> th_ph th1 = Locked p1 -> cstep c t1 <> c).
     { intros t1 th1 p1 H1 Hp1 E. unfold cstep in E. rewrite H1, Hp1 in E.
       destruct p1 as [r|a k].
       - apply (f_equal (fun x => cs_thr x t1)) in E. cbn in E. rewrite set_thr_same, H1 in E.
         injection E; intros E'. apply (f_equal th_ph) in E'. cbn in E'. congruence.
-      - destruct (exec (th_env th1) a (St (cs_store c) (th_lg th1))) as [x s1] eqn:Ex.
+      - destruct (exec (th_env th1) (th_clk th1) a (St (cs_store c) (th_lg th1))) as [x s1] eqn:Ex.
         apply (f_equal (fun x => cs_thr x t1)) in E. cbn in E. rewrite set_thr_same, H1 in E.
         injection E; intros E'. apply (f_equal th_lg) in E'. cbn in E'.
         (* every call but the cancellation test extends the log; the test changes the program *)
@@ -357,19 +361,18 @@ Section Inv.
             apply (f_equal (@length event)) in E'; cbn in E'; lia.
         + unfold do_stat in D. destruct (faulty _ _); injection D; intros <- _; cbn in E';
             apply (f_equal (@length event)) in E'; cbn in E'; lia.
-        + unfold do_delete in D. destruct (faulty _ _); injection D; intros <- _; cbn in E';
+        + unfold do_delete in D. destruct (faulty _ _); [|destruct (efaulty _ _)]; injection D; intros <- _; cbn in E';
             apply (f_equal (@length event)) in E'; cbn in E'; lia.
-        + unfold do_store in D. destruct (faulty _ _); [|destruct (is_dir _ _)]; injection D; intros <- _; cbn in E';
+        + unfold do_store in D. destruct (faulty _ _); [|destruct (is_dir _ _); [|destruct (efaulty _ _)]]; injection D; intros <- _; cbn in E';
             apply (f_equal (@length event)) in E'; cbn in E'; lia.
-        + (* ACancelled: the state may indeed be unchanged only if k x = Do ACancelled k -- excluded
-             structurally: k x is a strict subterm; we use the size of the program *)
+        + (* ACancelled: no log entry, but the program advances to a strict subterm *)
           injection Ex; intros <- <-.
           injection E; intros E2. apply (f_equal th_ph) in E2. cbn in E2. rewrite Hp1 in E2.
-          injection E2; intros Ek. clear -Ek. exfalso.
-          assert (Sub : forall (q : prog) (a' : act) (k' : resp -> prog) (x' : resp), q = Do a' k' -> k' x' <> q).
-          { induction q as [r'|a0 k0 IHq]; intros a' k' x' Ep; [discriminate|].
-            injection Ep; intros <- <-. intros Ek'. exact (IHq x' a0 k0 x' Ek' eq_refl). }
-          exact (Sub _ _ _ _ eq_refl Ek). }
+          injection E2; intros Ek. exact (Sub _ _ _ _ eq_refl Ek).
+        + (* ANow: likewise *)
+          injection Ex; intros <- <-.
+          injection E; intros E2. apply (f_equal th_ph) in E2. cbn in E2. rewrite Hp1 in E2.
+          injection E2; intros Ek. exact (Sub _ _ _ _ eq_refl Ek). }
     destruct (cs_holder c) as [h|] eqn:Hh.
     - destruct (ci_holder _ _ I h Hh) as (th1 & p1 & H1 & Hp1). exists h. exact (Move h th1 p1 H1 Hp1).
     - destruct (th_ph th) as [|p|r] eqn:Hp.
